@@ -297,6 +297,57 @@ theorem arbo_rootOf {edges : List Edge} {r : Nat} (A : Arbo edges r) (hne : edge
       · exact absurd (h ▸ h2) (hpa e' he')
     · exact absurd h.symm (hpa e he)
 
+/-- every emitted edge starts at a node reachable from the root (by the parent-first invariant) -/
+theorem out_reach {edges : List Edge} {r : Nat} {s : BState} (I : BInv edges r s) :
+    ∀ (n : Nat) (pre : List Edge), pre.length ≤ n → ∀ (e : Edge) (post : List Edge),
+      s.out = pre ++ e :: post → Reach edges r e.1 := by
+  intro n
+  induction n with
+  | zero =>
+    intro pre hp e post hs
+    have : pre = [] := List.length_eq_zero_iff.mp (by omega)
+    subst this
+    rcases I.parentFirst [] e post hs with h0 | ⟨e', he', _⟩
+    · rw [h0]; exact Reach.root
+    · simp at he'
+  | succ n ih =>
+    intro pre hp e post hs
+    rcases I.parentFirst pre e post hs with h0 | ⟨e', he', hd⟩
+    · rw [h0]; exact Reach.root
+    · obtain ⟨a, b, hab⟩ := List.append_of_mem he'
+      have hs' : s.out = a ++ e' :: (b ++ e :: post) := by rw [hs, hab]; simp
+      have hlt : a.length ≤ n := by rw [hab] at hp; simp at hp; omega
+      have hr := ih a hlt e' (b ++ e :: post) hs'
+      have hmem : e' ∈ edges := out_sub I e' (by rw [hs']; simp)
+      rw [← hd]
+      exact Reach.step hr (by cases e'; exact hmem)
+
+/-- soundness of the decidable recogniser: `isArbo` implies the theorems' hypothesis -/
+theorem isArbo_sound {edges : List Edge} (h : isArbo edges = true) : ∃ r, Arbo edges r := by
+  unfold isArbo at h
+  cases hr : rootOf edges with
+  | none => simp [hr] at h
+  | some r =>
+    simp only [hr, Bool.and_eq_true, decide_eq_true_eq, List.all_eq_true, bne_iff_ne, ne_eq,
+      Bool.or_eq_true, beq_iff_eq] at h
+    obtain ⟨⟨⟨hnd, hroot⟩, huniq⟩, hlen⟩ := h
+    have T : TreeLike edges r := {
+      nodup := hnd
+      noRootIn := fun e he => hroot e he
+      uniqueParent := fun e he e' he' heq => by
+        rcases huniq e he e' he' with h1 | h1
+        · exact absurd heq h1
+        · exact h1 }
+    have I := binv_run T (edges.length + 1) (binv_init edges r)
+    have hperm : (bfsOut edges r).Perm edges :=
+      ((List.subperm_of_subset (out_nodup I) (fun _ h => out_sub I _ h)).perm_of_length_le
+        (by simp [bfsOut] at hlen ⊢; omega))
+    refine ⟨r, { T with reach := ?_ }⟩
+    intro e he
+    have hm : e ∈ bfsOut edges r := hperm.mem_iff.mpr he
+    obtain ⟨a, b, hab⟩ := List.append_of_mem hm
+    exact out_reach I a.length a (Nat.le_refl _) e b hab
+
 theorem map_idxOf_self {α : Type} [BEq α] [LawfulBEq α] : ∀ (l : List α), l.Nodup →
     l.map (fun e => l.idxOf e) = List.range l.length := by
   intro l hn
